@@ -554,11 +554,28 @@ def gen():
     body = "".join(l for v in pq.values() for l in v.splitlines(True) if l.startswith("Definition"))
     parts.append(("priority_queue.py (definitions emitted by the C20 translator)", hashlib.sha256(body.encode()).hexdigest()[:16]))
     need = ["item", "item_dummy", "item_lt", "pq_init", "pq_push", "pq_get", "pq_pop", "pq_empty", "pq_front"]
-    got = [l.split()[1] for l in body.splitlines()]
+    lines = [l for l in body.splitlines() if l.split()[1] in need]      # the C20 translator may emit more (union-find plumbing)
+    got = [l.split()[1] for l in lines]
     if got != need:
         raise TranslationError("priority_queue.py: the C20 translator emitted %s, expected %s" % (got, need))
+    body = "\n".join(lines) + "\n"
     out.append("(* priority_queue.py PriorityItem / PriorityQueue (as emitted by the C20 translator; heappush/heappop are MV.C11.Heap's) *)")
     out.append(body.rstrip("\n"))
+
+    # no decorator (memoisation ...) on an anchored callable other than the expected ones; every default is an immutable constant
+    allowed = {"KDTree.Leaf.size": ["property"], "AABB.infinite": ["classmethod"], "AABB.mini": ["property"], "AABB.maxi": ["property"]}
+    for tr_, rel_, names in ((tree, KD, ["KDTree.__init__", "KDTree._new_leaf", "KDTree._split_points", "KDTree._find_pivot", "KDTree.is_leaf",
+                                         "KDTree.query", "KDTree.query_radius", "KDTree.Leaf.size"]),
+                             (atree, AB, ["AABB.__init__", "AABB.distance", "AABB.infinite", "AABB.mini", "AABB.maxi"]),
+                             (gtree, GE, ["norm", "distance"])):
+        for qn in names:
+            f_ = T.find_def(tr_, qn, rel_)
+            expect([u(d_) for d_ in f_.decorator_list] == allowed.get(qn, []), rel_, f_, "unexpected decorator on %s" % qn)
+            for d_ in list(f_.args.defaults) + [x for x in f_.args.kw_defaults if x is not None]:
+                expect(isinstance(d_, ast.Constant), rel_, f_, "%s has a default that is not an immutable constant" % qn)
+    for cn in ("KDTree", "KDTree.Node", "KDTree.Leaf"):
+        c_ = T.find_def(tree, cn, KD)
+        expect([u(d_) for d_ in c_.decorator_list] == ([] if cn == "KDTree" else ["dataclass"]), KD, c_, "unexpected decorator on class %s" % cn)
 
     text = T.header("C11: decision expressions and plumbing of KDTree / AABB.distance", parts)
     text += "From Coq Require Import ZArith List Bool.\nImport ListNotations.\nRequire Import MV.C11.Ext MV.C11.Heap.\nOpen Scope Z_scope.\n\n"
